@@ -38,9 +38,9 @@ ResetTo(ev) ==           \* "Reset": a new behaviour starts; Setup information (
           /\ par' = [o \in Obj |-> NONE] /\ rng' = [o \in Obj |-> NONE]
           /\ hist' = <<>>
      ELSE LET su == SuOf(ev) IN
-          /\ life' = [o \in Obj |-> IF su[o].d = NoData THEN "unfitted" ELSE "fitted"]
+          /\ life' = [o \in Obj |-> IF su[o].d = "absent" THEN "absent" ELSE IF su[o].d = NoData THEN "unfitted" ELSE "fitted"]
           /\ cfg'  = [o \in Obj |-> su[o].c]
-          /\ par'  = [o \in Obj |-> ParOfSetup(su[o])]
+          /\ par'  = [o \in Obj |-> IF su[o].d = "absent" THEN NONE ELSE ParOfSetup(su[o])]
           /\ rng'  = [o \in Obj |-> IF su[o].s = 0 THEN NONE ELSE Fresh(su[o].s)]
           /\ hist' = <<[e |-> "Setup", su |-> su]>>
   /\ g' = G0 /\ art' = [k \in Arts |-> NoArt] /\ out' = <<"init">>
@@ -70,6 +70,10 @@ Put(m, t, c) == IF t \in DOMAIN m THEN [m EXCEPT ![t] = c] ELSE m @@ (t :> c)
 
 RECURSIVE PutAll(_, _)
 PutAll(m, pairs) == IF pairs = <<>> THEN m ELSE PutAll(Put(m, pairs[1][1], pairs[1][2]), Tail(pairs))
+
+RECURSIVE PutNew(_, _)
+PutNew(m, pairs) == IF pairs = <<>> THEN m
+                    ELSE PutNew(IF pairs[1][1] \in DOMAIN m THEN m ELSE m @@ (pairs[1][1] :> pairs[1][2]), Tail(pairs))
 
 \* pairs <<token, class>> for the generators after this step (global + each seeded model)
 GenPairs(ev) ==
@@ -113,7 +117,7 @@ TStep ==
          fresh == Ev.e = "Reset"
      IN /\ verdict' = verdict \o [i \in 1..Len(f) |-> <<l, f[i]>>]
         /\ seenG'   = PutAll(IF fresh THEN <<>> ELSE seenG, GenPairs(Ev))
-        /\ seenPar' = PutAll(seenPar, ParPairs(Ev))
+        /\ seenPar' = PutNew(seenPar, ParPairs(Ev))     \* the first (reference) binding of a behaviour token is kept
         /\ seenOut' = IF out'[1] # "error" /\ Ev.err = "" /\ Ev.out # 0
                       THEN Put(IF fresh THEN <<>> ELSE seenOut, out', Ev.out)
                       ELSE (IF fresh THEN <<>> ELSE seenOut)
